@@ -17,7 +17,23 @@ META = {
             "indices -1..len+1 and 2^63, 2^64) executed as Scheme text in a real Vm in release AND debug profile, "
             "reading back every pool object after every operation as a graph with sharing labels; the same "
             "sequences are compared against an independent reference store with R7RS meanings (property oracle). "
-            "map and for-each are covered by model and oracle correspondence (no specification theorem yet). equal?: "
+            "map and for-each (Scheme definitions of prelude.scm, fix 71c917c: at least one list) have SPECIFICATION theorems, "
+            "parametric in the procedure argument as a store transformer g under an explicit callee law (MapCallee g M I: "
+            "in every store satisfying a caller-chosen invariant I that survives allocation, g returns on each argument "
+            "tuple it is given, writes of what existed only the cells M — M below the heap size at the call and off the "
+            "spines of the input lists — and re-establishes I): map_spec / forEach_spec — for proper lists l1..lk (k>=1) "
+            "with element references as1..ask, m = min |asi| and fuel >= m+k+2 the answer is ok; the m calls happen in list "
+            "order with the store threaded left to right (MapRun: a fold over j, between two calls the store only grows by "
+            "map's own pairs), the j-th call receives the references of the j-th elements themselves (map_args_identity, "
+            "map_tuples_get/_length/_single: pointers, not copies), the result of map is a proper list ALL of whose pairs "
+            "were allocated during the call (fresh, shares nothing) whose j-th element denotes the value the j-th call "
+            "returned, for-each returns the unspecified value, the input lists have the same views afterwards and of the "
+            "cells that existed only M may differ (Keeps M; map_spec_pure / forEach_spec_pure: Extends, nothing changed at "
+            "all, for callees that only allocate); map_improper_err — when the improper tail is reached before any list "
+            "ends both answer the `expected pair` error (after the calls for the elements before it; when a proper list "
+            "ends first the tail is never inspected and the answer is ok, as in the Rust VM); map_callee_failure — a "
+            "callee that fails at call j (error, panic, no return) makes map/for-each fail the same way, so the order of "
+            "calls is observable; map_spec_wf — well-formedness under C06's CalleeLaw. equal?: "
             "for every store and every two values that have an abstract tree view (View s v t, an inductive relation "
             "without fuel unfolding pairs, vectors, strings by content and the scalars booleans / characters / () / exact "
             "integers / symbols by name into an address-free tree; defined exactly on acyclic data, sharing allowed) "
@@ -50,6 +66,17 @@ META = {
             "call of its local count, which advances two pairs); `(map f)` / `(for-each f)` without a list are the arity error "
             "in model and code since fix 71c917c (map_without_list; prelude_image_map / _forEach cover the empty list of "
             "lists too); "
+            "map / for-each specification (Lemmas/StoreMap{Defs,Steps,Main,Plan}.lean, core Lean only): closed theorems about "
+            "Store.map / Store.forEach for EVERY callee g, store, fuel and argument lists under the stated hypotheses; what is "
+            "assumed and not proved: the callee law MapCallee (satisfiable: mapCallee_car, mapCallee_cons, and the writing "
+            "callee exSetCar9 = (lambda (p) (set-car! p 9)) with M = {the element}, all instantiated on exStore), i.e. a "
+            "callee that redirects a pair of a list being traversed, writes a cell it allocated in an earlier call, or "
+            "escapes (call/cc) is outside the theorems; a by-value pair or a symbol/string/vector immediate as list argument "
+            "is outside SpineOff (stack values are references or scalar immediates); the Scheme closure passed as procedure "
+            "argument in the real VM is tied to `g` only through the builtin callees of the op-sequence correspondence "
+            "(car cdr cons list vector length reverse equal? set-car! set-cdr! vector-fill! vector-set!); the mixed case "
+            "(some list improper but a proper one ends first) is map_plan + plan_ok in Lemmas/StoreMapPlan.lean, not "
+            "re-exported; "
             "`equal?` (fix dfd9e81: compare.rs threads a set of pairs of heap locations whose comparison has begun; the model "
             "Store.equalSeen carries it as a list, the functions before the repair are kept as Store.Pinned.equal / "
             "comparePair / compareVector): equal_agrees_pinned — for every store and arguments, if the pinned equal returns "
@@ -92,7 +119,9 @@ vectorSet_err_index vectorRef_vectorSet vectorFill_ok vectorLength_ok vectorLeng
 makeVector_err vectorCopy_ok vectorCopy_all vectorCopy_err_range vectorCopyBang_ok vectorCopyBang_ok_start
 vectorCopyBang_ok_whole vectorCopyBang_err cons_ok car_ok cdr_ok car_err cdr_err car_cons setCar_ok setCdr_ok
 setCar_err setCdr_err setCar_visible reverse_ok reverse_err list_ok vectorToList_ok listToVector_ok listToVector_err
-length_ok length_err length_cyclic_err length_total map_without_list isList_spec listTail_ok listTail_err listTail_err_index listRef_ok listRef_err eqv_key
+length_ok length_err length_cyclic_err length_total map_without_list map_spec forEach_spec map_spec_pure
+forEach_spec_pure map_tuples_length map_tuples_get map_tuples_single map_args_identity map_improper_err
+map_callee_failure map_spec_wf mapCallee_exSetCar9 ex_alist isList_spec listTail_ok listTail_err listTail_err_index listRef_ok listRef_err eqv_key
 eqv_symbol mem_spec ass_spec append_ok append_err
 prelude_source_caar prelude_source_list prelude_source_length prelude_source_memq prelude_source_memv
 prelude_source_member prelude_source_assq prelude_source_assv prelude_source_assoc prelude_source_anyP
